@@ -77,6 +77,11 @@ func (plugin *ResponseBasedThrottlingPlugin) OnResponse(
 	onResponse lunarMessages.OnResponse,
 	remedyConfig *sharedConfig.ResponseBasedThrottlingConfig,
 ) (actions.RespLunarAction, error) {
+	if onResponse.FromGateway {
+		// Not a provider response: storing e.g. the replay of an entry that
+		// expired since it was looked up would extend the provider's retry-after.
+		return &actions.NoOpAction{}, nil
+	}
 	if !slices.Contains(remedyConfig.RelevantStatuses, onResponse.Status) {
 		log.Trace().
 			Msgf("Response with status code %v, continue", onResponse.Status)
